@@ -26,7 +26,7 @@
 (* The wire is abstract: a function from field NUMBERS to entries          *)
 (* [kind, ref, key, rep, val]; an entry can be read by a declaration only  *)
 (* if number, type, referenced type, map key type and repetition agree,    *)
-(* otherwise the field is lost (unknown field) or garbled (<<99>>).        *)
+(* otherwise the field is lost (unknown field) or garbled (value 99).         *)
 (* Byte-level encodings (varints, zig-zag, packing) are protobuf's job.    *)
 (*                                                                         *)
 (* Names are sequences of words [l |-> "size", c |-> "Size"] because TLC   *)
@@ -90,7 +90,7 @@ NumPool == CASE Scope \in {"small", "mid"} -> {1, 2, 3}
 Tied == Scope \in {"small", "mid"}
 TiedNumber(nm) == CASE nm = <<W("name", "Name")>> -> 2 [] nm = <<W("class", "Class")>> -> 1 [] OTHER -> 3
 ScalarPool == CASE Scope = "small" -> {"int32", "bool"}
-                [] Scope = "mid" -> {"int32", "string", "bool", "double", "bytes", "sint64"}
+                [] Scope = "mid" -> {"int32", "string", "bool", "double"}
                 [] OTHER -> Scalars
 KeyPool == CASE Scope = "small" -> {"string"}
              [] Scope = "mid" -> {"string", "bool", "int64"}
@@ -116,17 +116,18 @@ Contexts == CASE Scope = "one" ->
 \*                                                            same simple name as the (nested) subject
 \*   xfile / xnested   top-level / nested message of the other file of the package (file b imports file a)
 \*   dep / depnested   top-level / nested message of a dependency package;  wkt  google.protobuf.Duration
-MsgTargets(c) == (IF Scope = "small" THEN {"self"} ELSE {"self", "peer", "before", "after", "cousin", "dep", "depnested", "wkt"})
-                 \cup (IF c.kids THEN {"kid"} ELSE {})
-                 \cup (IF c.depth >= 2 /\ Scope # "small" THEN {"parent", "sibling"} ELSE {})
-                 \cup (IF c.depth >= 2 /\ Scope # "small" THEN {"shadow"} ELSE {})
-                 \cup (IF c.depth >= 3 THEN {"root"} ELSE {})
-                 \cup (IF c.file = "b" /\ Scope # "small" THEN {"xfile", "xnested"} ELSE {})
-EnumTargets(c) == (IF Scope = "small" THEN {"etop"} ELSE {"etop", "ecousin", "edep", "edepnested"})
-                 \cup (IF c.kids THEN {"ekid"} ELSE {})
-                 \cup (IF c.depth >= 2 /\ Scope # "small" THEN {"esibling"} ELSE {})
-                 \cup (IF c.depth >= 2 /\ Scope # "small" THEN {"eshadow"} ELSE {})
-                 \cup (IF c.file = "b" /\ Scope # "small" THEN {"exfile", "exnested"} ELSE {})
+MsgTargets(c) == CASE Scope = "small" -> {"self"}
+                   [] Scope = "mid" -> {"self", "before"}
+                   [] OTHER -> {"self", "peer", "before", "after", "cousin", "dep", "depnested", "wkt"}
+                               \cup (IF c.kids THEN {"kid"} ELSE {})
+                               \cup (IF c.depth >= 2 THEN {"parent", "sibling", "shadow"} ELSE {})
+                               \cup (IF c.depth >= 3 THEN {"root"} ELSE {})
+                               \cup (IF c.file = "b" THEN {"xfile", "xnested"} ELSE {})
+EnumTargets(c) == CASE Scope \in {"small", "mid"} -> {"etop"}
+                    [] OTHER -> {"etop", "ecousin", "edep", "edepnested"}
+                               \cup (IF c.kids THEN {"ekid"} ELSE {})
+                               \cup (IF c.depth >= 2 THEN {"esibling", "eshadow"} ELSE {})
+                               \cup (IF c.file = "b" THEN {"exfile", "exnested"} ELSE {})
 TypeChoices(c) == { [kind |-> k, ref |-> ""] : k \in ScalarPool }
                   \cup { [kind |-> "enum", ref |-> t] : t \in EnumTargets(c) }
                   \cup { [kind |-> "message", ref |-> t] : t \in MsgTargets(c) }
@@ -211,9 +212,10 @@ EncodeBy(d, v) ==
       present == {j \in DOMAIN nv : nv[j] # <<>>}
   IN [n \in {d[j].number : j \in present} |-> LET j == CHOOSE jj \in present : d[jj].number = n IN Entry(d[j], nv[j])]
 Readable(e, d) == e.kind = d.kind /\ e.ref = d.ref /\ e.key = d.key /\ e.rep = Rep(d)
+Garbled(d) == IF d.card = "map" THEN <<<<99, 99>>>> ELSE <<99>>
 DecodeBy(d, w) ==
   LET raw == [j \in 1..Len(d) |-> IF d[j].number \in DOMAIN w
-                                   THEN (IF Readable(w[d[j].number], d[j]) THEN w[d[j].number].val ELSE <<99>>)
+                                   THEN (IF Readable(w[d[j].number], d[j]) THEN w[d[j].number].val ELSE Garbled(d[j]))
                                    ELSE <<>>]
       \* several members of one oneof on the wire: the last one (highest number, fields are written in number order) wins
       beaten(j) == d[j].oneof # "" /\ \E i \in 1..Len(d) : i # j /\ d[i].oneof = d[j].oneof /\ raw[i] # <<>> /\ d[i].number > d[j].number
@@ -257,7 +259,7 @@ BeginField(nm, num) ==
   /\ subject = "message" /\ phase = "build" /\ pstage = 0 /\ Len(fields) < MaxFields
   /\ \A i \in 1..Len(fields) : /\ Snake(fields[i].name) # Snake(nm) /\ LowerCamel(fields[i].name) # LowerCamel(nm)
                                /\ fields[i].number # num /\ fields[i].group # Snake(nm)
-  /\ Scope = "small" => \A i \in 1..Len(fields) : fields[i].number < num     \* small scope: declared in number order
+  /\ Tied => \A i \in 1..Len(fields) : fields[i].number < num     \* small scopes: declared in number order
   /\ pend' = [Blank EXCEPT !.name = nm, !.number = num] /\ pstage' = 1
   /\ UNCHANGED <<fields, phase>> /\ UNCH_side /\ UNCH_vals
 TypeField(t) ==
